@@ -409,6 +409,17 @@ func pragmaTable(c *core.Ctx, s *core.Sink, pre *ssa.Function) {
 			}
 		}
 	}
+	// per-tag state: on entry to the attribute loop the state must be (no pragma seen, don't know, no name)
+	for k, p := range hdr.Preds {
+		if hdr.Dominates(p) {
+			continue
+		}
+		gv, okg := core.ConstBool(got.Edges[k])
+		nv, okn := core.ConstString(name.Edges[k])
+		_, oki := core.ConstInt(need.Edges[k])
+		s.Check(okg && !gv && okn && nv == "" && oki, core.FName(pre)+": prescan state is reset for every tag", c.Pos(hdr.Instrs[0].Pos()), "gotPragma=false, needPragma=dontKnow, name=\"\" on loop entry",
+			"the per-meta prescan state (pragma seen / need pragma / name) is carried over from a previous tag: an earlier http-equiv or content attribute would validate a later, unrelated meta")
+	}
 	cCharset, ok1 := codeWhenNameFrom["charset"]
 	cContent, ok2 := codeWhenNameFrom["content"]
 	if initVal < 0 || !ok1 || !ok2 {
